@@ -25,7 +25,7 @@ func init() {
 		Phases: func(tier string, seed int64) []Phase {
 			return []Phase{{Name: "tables", Run: c03Tables}, {Name: "goldap-noroute", Run: c03GoLDAP}}
 		},
-		MinObserved: []string{"requests_routed", "outcome/builtin", "outcome/default", "outcome/first_of_several", "outcome/shadowed_later_route", "tables_over_tls", "tables_whose_route_handlers_panic_after_replying"},
+		MinObserved: []string{"requests_routed", "outcome/builtin", "outcome/default", "outcome/first_of_several", "outcome/shadowed_later_route", "tables_over_tls", "tables_whose_route_handlers_panic_after_replying", "requests_carrying_controls"},
 	})
 }
 
@@ -159,7 +159,19 @@ func (q creq) encode() []byte {
 	case "delete":
 		op = sber.DelRequest([]byte("cn=u"))
 	}
-	return sber.Message(q.ID, op, nil).Encode()
+	// controls are none of routing's business: a quarter of the requests carry some (a critical control of a type gldap
+	// has no decoder for, a non-critical one, a critical ManageDsaIT) - they are routed like the others
+	var ctls []sber.Control
+	if q.ID%8 == 1 || q.ID%8 == 3 {
+		c03WithControls.Add(1)
+	}
+	switch q.ID % 8 {
+	case 1:
+		ctls = []sber.Control{{OID: "1.3.6.1.4.1.99999.1", Crit: true, HasValue: true, Value: []byte("v")}}
+	case 3:
+		ctls = []sber.Control{{OID: "1.3.6.1.4.1.99999.2"}, {OID: "2.16.840.1.113730.3.4.2", Crit: true}}
+	}
+	return sber.Message(q.ID, op, ctls).Encode()
 }
 
 var c03RespTag = map[string]int{"bind": 1, "search": 5, "modify": 7, "add": 9, "delete": 11, "ext": 24}
@@ -185,7 +197,7 @@ func (t c03Table) sig() string {
 }
 
 // c03RunTable serves the whole request alphabet against one route table.
-var c03TableCtr atomic.Int64
+var c03TableCtr, c03WithControls atomic.Int64
 
 func c03RunTable(c *Ctx, srv *Srv, t c03Table, reqs []creq) { c03RunTableOn(c, srv, nil, t, reqs) }
 
@@ -431,6 +443,7 @@ func c03RunTableOn(c *Ctx, srv *Srv, ctc *tls.Config, t c03Table, reqs []creq) {
 		}
 	}
 	c.Count("tables", 1)
+	c.Count("requests_carrying_controls", c03WithControls.Swap(0))
 }
 
 func c03Tables(c *Ctx) {
